@@ -59,7 +59,12 @@ def main():
                      "rules": rules, "entities": ents})
         print(d, rows[-1]["status"], ",".join(rules), flush=True)
     if only:
-        return 0
+        # merge the re-run rows into the frozen table
+        old = json.load(open(os.path.join(SEEDED, "MATRIX.json")))
+        byseed = {r["seed"]: r for r in old}
+        for r in rows:
+            byseed[r["seed"]] = r
+        rows = sorted(byseed.values(), key=lambda r: (r["seed"].split("-")[0], int(r["seed"].split("-")[1])))
     json.dump(rows, open(os.path.join(SEEDED, "MATRIX.json"), "w"), indent=1)
     with open(os.path.join(SEEDED, "MATRIX.md"), "w") as fh:
         fh.write("| seed | site | change | check of its property | rules |\n|---|---|---|---|---|\n")
